@@ -29,7 +29,8 @@ fn negotiate<L: Locale>(req: &Value) -> Value {
     };
     let parsed: Vec<Option<icu_locid::LanguageIdentifier>> = accepted
         .iter()
-        .map(|s| icu_locid::LanguageIdentifier::try_from_bytes(s.as_bytes()).ok())
+        // oracle: an entry is its text without surrounding ASCII white space (how a header list is split leaves some), parsed by ICU4X
+        .map(|s| icu_locid::LanguageIdentifier::try_from_bytes(s.trim_matches(|c: char| c.is_ascii_whitespace()).as_bytes()).ok())
         .collect();
     let langids = langid::convert_vec_str_to_langids_lossy(&accepted);
     let idx = |l: L| all.iter().position(|x| *x == l).unwrap();
